@@ -6,5 +6,6 @@ for t in cbmc goto-cc goto-instrument kissat clang-14 opt-14 z3 cvc5 python3-vt 
   command -v $t >/dev/null 2>&1 || { echo "missing tool: $t" >&2; fail=1; }
 done
 python3-vt -c "import z3" || fail=1
+command -v rustc >/dev/null 2>&1 || [ -x /root/.cargo/bin/rustc ] || echo "note: rustc not on PATH (C20 looks in ~/.cargo/bin as well)" >&2
 mkdir -p "$(dirname "$0")/evidence"
 exit $fail
